@@ -18,6 +18,25 @@ Theorem C10_lookup_follows_policy : forall w o st n kw,
 Proof. exact lookup_follows_policy. Qed.
 Print Assumptions C10_lookup_follows_policy.
 
+(* ... and for dependency('a', 'b', ...) with any number of names (also none: dependency('')):
+   the first overridden name wins; else the configured fallback subproject; else, unless
+   forced, the first name the system has in a matching version; else the fallback
+   subproject unless wrap_mode=nofallback; else error / not-found (Deps/Policy.policyN). *)
+Theorem C10_lookup_follows_policy_any_names : forall w o st names kw,
+  reach w o st -> fallback_named kw ->
+  fst (lookup w o st names kw) = policyN w o st names kw.
+Proof. exact lookup_follows_policyN. Qed.
+Print Assumptions C10_lookup_follows_policy_any_names.
+
+(* "Once one of the names has been found, all other names are added into the cache so
+   subsequent calls for any of those names return the same value" (dependency.yaml): after a
+   successful lookup every name of the call is overridden, hence answered by policy step 1 *)
+Theorem C10_found_names_all_overridden : forall w o st names kw d st1,
+  lookup w o st names kw = (OFound d, st1) ->
+  forall n, In n names -> n <> [] -> assoc n (s_over st1) <> None.
+Proof. exact found_names_all_overridden. Qed.
+Print Assumptions C10_found_names_all_overridden.
+
 (* "Repeated lookups with the same arguments within one configuration return the same
    dependency": after a dependency() call - any number of names, any keyword arguments -
    that did not abort the configuration, any number of identical calls return the same
